@@ -90,9 +90,10 @@ def run_model(exe, tbl, lines, nproc=8):
 
 def sweep(binary, force=False):
     import unicodedata
+    import re
+    ver = re.search(r'(?m)^SWEEP_VERSION = (\d+)', open(IMPL).read()).group(1)
     key = hashlib.sha256(open(binary, 'rb').read() + sys.version.encode()
-                         + unicodedata.unidata_version.encode()
-                         + open(IMPL, 'rb').read()).hexdigest()[:16]
+                         + unicodedata.unidata_version.encode() + ver.encode()).hexdigest()[:16]
     base = os.path.join(lib.CACHE, f'c18_sweep_{key}')
     cached = os.path.exists(base + '.tbl') and os.path.exists(base + '.json')
     if force or not cached:
@@ -295,3 +296,586 @@ def gen_cases(tier):
 
 
 TABLES = {}
+
+THEOREMS = [
+    'C18_ql_quote_literal', 'C18_ql_dollar_quote_literal', 'C18_ql_visit_constant', 'C18_ql_visit_bytes',
+    'C18_ql_quote_ident_partial', 'C18_ql_quote_ident_quoted', 'C18_ql_param_to_str_partial',
+    'C18_ascii_compat', 'C18_ql_quote_ident_refuted', 'C18_ql_param_to_str_refuted',
+    'C18_ql_quote_ident_num_refuted', 'C18_pg_quote_literal', 'C18_pg_quote_ident', 'C18_pg_quote_bytea',
+]
+KNOWN_IDENT = 'C18-ident-unicode-class'
+
+
+# ------------------------------------------------------------------------------ sweep tables
+
+class Tables:
+    """the Unicode class tables of the sweep (what the OCaml model is instantiated with)"""
+
+    def __init__(self, path):
+        self.sets = {}
+        for line in open(path):
+            p = line.split()
+            if p and p[0] == 'set':
+                self.sets[p[1]] = [tuple(map(int, r.split('-'))) for r in p[2:]]
+
+    def has(self, name, c):
+        import bisect
+        rs = self.sets[name]
+        i = bisect.bisect_right(rs, (c, 0x7fffffff)) - 1
+        return i >= 0 and rs[i][0] <= c <= rs[i][1]
+
+    def rs_alpha(self, c):
+        return chr(c).isalpha() if c < 128 else self.has('rs_alpha', c)
+
+
+def ident_class_finding(tb, fn, arg, fl, out):
+    """the predicate of known finding C18-ident-unicode-class (over the input only):
+    a name left bare that
+      (a) starts with a code point that is \\w and not \\d for Python but not alphabetic for Rust, or
+      (b) param_to_str only: contains a non-ASCII code point that is \\w but not Rust-alphabetic, or
+      (c) allow_num: ASCII digit 1-9 followed by decimal digits at least one of which is not ASCII"""
+    def one(name, param, allow_num):
+        if not name:
+            return False
+        c0 = ord(name[0])
+        if c0 >= 128 and name[0].isalnum() and not name[0].isdecimal() and not tb.rs_alpha(c0):
+            return True
+        if param and any(ord(ch) >= 128 and ch.isalnum() and not tb.rs_alpha(ord(ch)) for ch in name):
+            return True
+        if allow_num and '1' <= name[0] <= '9' and all(ch.isdecimal() for ch in name[1:]) \
+                and any(ord(ch) >= 128 for ch in name[1:]):
+            return True
+        return False
+    if fn == 'I':
+        return out == arg and one(arg, False, bool(fl & 4))
+    if fn == 'P':
+        return out == '$' + arg and one(arg, True, True)
+    if fn == 'T':
+        return any(one(p, False, bool(fl & 1)) for p in arg.split('::'))
+    return False
+
+
+# ------------------------------------------------------------------------------ non-triviality
+
+ADV = {
+    'L': set("'\\\b\f\n\r\t") | {chr(c) for c in list(range(0x202a, 0x202f)) + list(range(0x2066, 0x206a))},
+    'D': set('$'),
+    'C': set("'\"\\$\n\r\t") | {chr(c) for c in list(range(0, 32)) + list(range(127, 161))
+                                + list(range(0x202a, 0x202f)) + list(range(0x2066, 0x206a))},
+    'E': set("'\\\b\f\n\r\t"),
+    'l': set("'\\"),
+}
+
+
+def nontrivial(case):
+    fn, arg, k, fl = case
+    if fn in ADV:
+        return any(ch in ADV[fn] for ch in arg)
+    if fn == 'B':
+        return any(b in (0x5c, 0x27, 0x22) or b < 32 or b >= 0x7e for b in arg)
+    if fn == 'b':
+        return len(arg) > 0
+    if fn in 'IPTiqt':
+        # a character that is not an ASCII letter (digits, punctuation, quotes, non-ASCII), a keyword
+        # or a mixed-case name
+        kws = TABLES.get('kwset') or set()
+        return any(not ('a' <= ch <= 'z' or 'A' <= ch <= 'Z') for ch in arg) or arg.lower() in kws \
+            or arg.lower() != arg
+    if fn == 'X':
+        return any(ch in "'\"\\$`" for ch in arg)
+    return False
+
+
+def form_of(fn, out_hex):
+    """which spelling the real code chose (distribution table)"""
+    if out_hex.startswith('X:') or out_hex == '-':
+        return 'exception' if out_hex != '-' else 'none'
+    o = bytes.fromhex(out_hex).decode('utf-8')
+    if fn in 'LDC':
+        if o.startswith("r'") or o.startswith('r"'):
+            return 'raw'
+        if o.startswith('$$'):
+            return '$$'
+        if o.startswith('$'):
+            return '$tag$'
+        if '\\' in o and fn == 'C':
+            return 'repr-escaped'
+        return 'quoted' + o[:1]
+    if fn in 'IPi':
+        return 'quoted' if (o.startswith('`') or o.startswith('$`') or o.startswith('"')) else 'bare'
+    return '-'
+
+
+# ------------------------------------------------------------------------------ PG monitor (model lexer)
+
+def pg_boundary_ok(k):
+    """Proofs.pg_boundary: k is empty or starts with a character that cannot continue an identifier"""
+    if not k:
+        return True
+    d = k[0]
+    return not (d.isascii() and (d.isalnum() or d in '_$\'"&') or ord(d) >= 128)
+
+
+def pg_expect(case, out_hex):
+    """what the PostgreSQL lexical spec must read from the real output (None: outside the domain)"""
+    fn, arg, k, fl = case
+    if fn == 'l':
+        if '\x00' in arg or k.startswith("'"):
+            return None
+        return [f'ok:S:{arg.encode().hex()}:{len(k)}']
+    if fn == 'i':
+        if not arg or '\x00' in arg or len(arg.encode()) > 63:
+            return None
+        if not pg_boundary_ok(k):
+            return None
+        h = arg.encode().hex()
+        cls = ['K1'] if (fl & 2) else ['K1', 'K4']
+        return [f'ok:I:{h}:{len(k)}'] + [f'ok:{c}:{h}:{len(k)}' for c in cls]
+    if fn == 'b':
+        return [f'ok:Y:{arg.hex()}:{("::bytea" + k).encode().hex()}']
+    if fn == 'q':
+        parts = arg.split('\x1f')
+        if len(parts) > 3 or any((not p) or '\x00' in p or len(p.encode()) > 63 for p in parts):
+            return None
+        if not pg_boundary_ok(k) or k.startswith('.'):
+            return None
+        return 'qname'
+    return None
+
+
+def pg_ok(case, third):
+    exp = pg_expect(case, None)
+    if exp is None:
+        return True
+    if exp == 'qname':
+        fn, arg, k, fl = case
+        if not third.startswith('ok:Q:'):
+            return False
+        body, rest = third[5:].rsplit(':', 1)
+        toks = body.split('/')
+        parts = arg.split('\x1f')
+        if len(toks) != len(parts) or int(rest) != len(k):
+            return False
+        for t, p in zip(toks, parts):
+            kind, v = t.split(':')
+            if v != p.encode().hex():
+                return False
+            if kind not in ('I', 'K1') and not (kind == 'K4' and not (fl & 2)):
+                return False
+        return True
+    return third in exp
+
+
+# ------------------------------------------------------------------------------ Coq cross-check
+
+def coq_list(cps):
+    return '[' + '; '.join(str(c) for c in cps) + ']'
+
+
+def coq_expr(case):
+    fn, arg, k, fl = case
+    a = coq_list(list(arg) if isinstance(arg, bytes) else [ord(c) for c in arg])
+    kk = coq_list([ord(c) for c in k])
+    b = lambda x: 'true' if x else 'false'
+    if fn == 'L':
+        return f'let o := ql_quote_literal {a} in (Some o, ql_lex1 U0 (o ++ {kk}))'
+    if fn == 'D':
+        return f'match ql_dollar_quote_literal {a} with Some o => (Some o, ql_lex1 U0 (o ++ {kk})) | None => (None, LexErr) end'
+    if fn == 'C':
+        return f'match ql_visit_constant U0 {a} with Some o => (Some o, ql_lex1 U0 (o ++ {kk})) | None => (None, LexErr) end'
+    if fn == 'B':
+        return f'let o := ql_visit_bytes {a} in (Some o, ql_lex1 U0 (o ++ {kk}))'
+    if fn == 'I':
+        return (f'let o := ql_quote_ident U0 {b(fl & 1)} {b(fl & 2)} {b(fl & 4)} {a} in '
+                f'(Some o, ql_lex1 U0 (o ++ {kk}))')
+    if fn == 'P':
+        return f'let o := ql_param_to_str U0 {a} in (Some o, ql_lex1 U0 (o ++ {kk}))'
+    if fn == 'X':
+        return f'(@None (list N), ql_lex1 U0 {a})'
+    return None
+
+
+def parse_coq_lists(s):
+    import re
+    return [[int(x) for x in m.split(';') if x.strip()] for m in re.findall(r'\[([^\]]*)\]', s)]
+
+
+def coq_to_canon(s):
+    """'(Some [..], LexOk (TStr [..]) [..])' -> (out hex | NONE | -, lex canon)"""
+    import re
+    s = s.replace('%N', '')
+    m = re.match(r'\((Some \[[^\]]*\]|None), (.*)\)$', s.strip())
+    if not m:
+        return None
+    o, l = m.group(1), m.group(2).strip()
+    if o == 'None':
+        out = None
+    else:
+        out = ''.join(chr(c) for c in parse_coq_lists(o)[0]).encode('utf-8').hex()
+    if l == 'LexErr':
+        lex = 'err'
+    elif l == 'LexUnmodelled':
+        lex = 'unm'
+    else:
+        m2 = re.match(r'LexOk \((T\w+) (\[[^\]]*\]|\d+)\) (\[[^\]]*\])$', l)
+        if not m2:
+            return None
+        kind = {'TStr': 'S', 'TBin': 'B', 'TIdent': 'I', 'TKeyword': 'K', 'TParam': 'P', 'TInt': 'N'}[m2.group(1)]
+        rest = len(parse_coq_lists(m2.group(3))[0])
+        if kind == 'N':
+            v = m2.group(2).encode().hex()
+        elif kind == 'B':
+            v = bytes(parse_coq_lists(m2.group(2))[0]).hex()
+        else:
+            v = ''.join(chr(c) for c in parse_coq_lists(m2.group(2))[0]).encode('utf-8').hex()
+        lex = f'ok:{kind}:{v}:{rest}'
+    return out, lex
+
+
+# ------------------------------------------------------------------------------ shrinking
+
+def shrink(case, still_fails, rounds=8):
+    """greedy: delete one character / replace one by 'a' (bytes: 0x61), batched per round"""
+    fn, arg, k, fl = case
+    for _ in range(rounds):
+        cands = []
+        n = len(arg)
+        for i in range(n):
+            cands.append((fn, arg[:i] + arg[i + 1:], k, fl))
+        if k:
+            cands.append((fn, arg, '', fl))
+        for i in range(n):
+            a = b'a' if isinstance(arg, bytes) else 'a'
+            if arg[i:i + 1] != a:
+                cands.append((fn, arg[:i] + a + arg[i + 1:], k, fl))
+        cands = [c for c in cands if c != (fn, arg, k, fl)][:400]
+        if not cands:
+            break
+        res = still_fails(cands)
+        pick = None
+        for c, r in zip(cands, res):
+            if r and (len(c[1]) < len(arg) or (pick is None)):
+                pick = c
+                if len(c[1]) < len(arg):
+                    break
+        if pick is None or (pick[1] == arg and pick[2] == k):
+            break
+        if len(pick[1]) == len(arg) and pick[2] == k and sum(1 for x in pick[1] if x in ('a', 0x61)) <= \
+                sum(1 for x in arg if x in ('a', 0x61)):
+            break
+        fn, arg, k, fl = pick
+    return (fn, arg, k, fl)
+
+
+def show(case):
+    fn, arg, k, fl = case
+    return {'fn': fn, 'arg': arg.hex() if isinstance(arg, bytes) else arg, 'arg_repr': ascii(arg), 'k': k,
+            'flags': fl, 'case': enc(case)}
+
+
+FN_NAMES = {'E': 'edgeql.quote.escape_string', 'L': 'edgeql.quote.quote_literal',
+            'D': 'edgeql.quote.dollar_quote_literal', 'C': 'edgeql.codegen visit_Constant(STRING)',
+            'B': 'edgeql.codegen visit_BytesConstant', 'I': 'edgeql.quote.quote_ident',
+            'P': 'edgeql.codegen param_to_str / visit_Parameter', 'T': 'edgeql.codegen.ident_to_str',
+            'l': 'pgsql.common.quote_literal / dbops.encode_value / pgsql codegen StringConstant',
+            'i': 'pgsql.common.quote_ident', 'b': 'pgsql.common.quote_bytea_literal / pgsql codegen ByteaConstant',
+            'q': 'pgsql.common.qname', 't': 'pgsql.common.quote_type', 'X': 'EdgeQL lexer (tokenizer.rs)',
+            'Y': 'PostgreSQL lexical spec'}
+
+
+# ------------------------------------------------------------------------------ the check
+
+def run(tier):
+    rep = lib.Report(PROP, tier, 'proof')
+    thorough = tier == 'thorough'
+    t_start = time.time()
+
+    # ---- 1. translator (fail-closed)
+    tr_err = None
+    G = None
+    try:
+        G = c18_quote.run(lib.REPO, GEN_DIR)
+    except Exception as e:      # TranslateError or a syntax error in the source
+        tr_err = f'{type(e).__name__}: {e}'
+    if G is None:
+        try:    # tables of the pinned tree, only to drive the generators while searching for a failing input
+            G = c18_quote.translate('/repo')[0]
+        except Exception:
+            G = {}
+    TABLES['G'] = G
+    TABLES['kwset'] = {''.join(map(chr, w)) for n in ('g_kw_unreserved', 'g_kw_partial', 'g_kw_future',
+                                                      'g_kw_current') for w in G.get(n, [])} | \
+        {''.join(map(chr, w)) for w, _ in G.get('g_pg_keywords', [])}
+
+    # ---- 2. proofs, model
+    pf = lib.proof_stage(rep, 'C18', THEOREMS, extra_targets=['theories/C18/Refuted.vo'], thorough=thorough)
+    exe, blog = lib.build_model('c18', 'ExtractC18.v', 'c18_main.ml', 'C18_ext')
+
+    # ---- 3. real lexer + code point sweep (instantiates the Unicode tables of the model)
+    harness_fail = None
+    try:
+        binary = lexer_binary()
+        tbl, sw, sweep_cached = sweep(binary, force=thorough)
+        tb = Tables(tbl)
+    except Exception as e:   # noqa
+        harness_fail = f'{type(e).__name__}: {e}'
+    if harness_fail:
+        rep.violation('the real lexer / the code point sweep could not be run: ' + harness_fail[-1500:],
+                      {'broken': 'lexer build or sweep', 'error': harness_fail[-3000:]}, False)
+        rep.coverage.update({'evaluations': 0, 'distinct_nontrivial': 0, 'rule': 'n/a', 'samples': [],
+                             'trusted_base': []})
+        return rep.finish()
+
+    # ---- 4. cases; real code (+ real lexer, monitors) vs extracted model
+    cases, ncorp = gen_cases(tier)
+    lines = [enc(c) for c in cases]
+    impl = run_impl(lines, binary)
+    model = run_model(exe, tbl, lines) if exe else None
+
+    def impl_of(cs):
+        return run_impl([enc(c) for c in cs], binary)
+
+    known_ids = {e['id'] for e in lib.known_findings(PROP)}
+    mon = []          # (index, flag)
+    for i, r in enumerate(impl):
+        fl = r.split('\t')[2]
+        if fl != '-':
+            mon += [(i, f) for f in fl.split(',')]
+    out_mism, lex_mism, pg_fail, n_lex_cmp, n_unm, n_none = [], [], [], 0, 0, 0
+    if model is not None:
+        for i, (c, a, b) in enumerate(zip(cases, impl, model)):
+            io, il, _ = a.split('\t')
+            mo, ml, mp = b.split('\t')
+            fn = c[0]
+            if mo == 'NONE':
+                n_none += 1
+            if fn not in 'TtXY' and io != mo:
+                out_mism.append(i)
+                continue
+            if fn in 'LDCBIPX':
+                if ml == 'unm':
+                    n_unm += 1
+                else:
+                    n_lex_cmp += 1
+                    if il != ml:
+                        lex_mism.append(i)
+            if fn in 'libq' and not pg_ok(c, mp):
+                pg_fail.append(i)
+        # quote_type: not modelled; its real output must read as a dotted name under the PG spec
+        tq = [(i, c) for i, c in enumerate(cases) if c[0] == 't' and not impl[i].startswith('X:')]
+        tq_lines = [enc(('Y', bytes.fromhex(impl[i].split('\t')[0]).decode() + c[2], '', 0)) for i, c in tq]
+        tq_res = run_model(exe, tbl, tq_lines) if tq_lines else []
+        for (i, c), r in zip(tq, tq_res):
+            parts = c[1].split('\x1f')
+            plain = all(p and p.isascii() and p.replace('_', 'a').isalnum() and not p[0].isdigit()
+                        and len(p) < 64 for p in parts)
+            if plain and not r.split('\t')[2].startswith('ok:Q:'):
+                pg_fail.append(i)
+
+    # ---- 5. a sample evaluated inside Coq (guards the extraction step); ASCII-only cases so that
+    #         the Unicode tables are not consulted
+    coq_diff, n_coq = [], 0
+    if model is not None and pf['ok']:
+        rnd = lib.rng('C18coq')
+        pool = [i for i, c in enumerate(cases) if c[0] in 'LDCBIPX' and len(c[1]) <= 24
+                and (isinstance(c[1], bytes) or c[1].isascii()) and c[2].isascii()]
+        idx = sorted(rnd.sample(pool, min(len(pool), 400 if thorough else 120)))
+        try:
+            outs = lib.coq_eval('C18', 'From Coq Require Import List NArith. Import ListNotations.\n'
+                                       'From Verif.C18 Require Import Gen_Quote Model Proofs Props.\n'
+                                       'Open Scope N_scope.',
+                                [coq_expr(cases[i]) for i in idx], timeout=1200)
+            n_coq = len(outs)
+            for i, o in zip(idx, outs):
+                got = coq_to_canon(o)
+                mo, ml, _ = model[i].split('\t')
+                want = (None if mo in ('NONE', '-') else mo, ml)
+                if got is None or got != want:
+                    coq_diff.append((i, o[:300]))
+        except Exception as e:   # noqa
+            coq_diff.append((-1, str(e)[-800:]))
+
+    # ---- 6. verdict
+    real_viol = 0
+    by_flag = {}
+    for i, f in mon:
+        by_flag.setdefault((cases[i][0], f), []).append(i)
+    known_hits = 0
+    for (fn, f), idxs in sorted(by_flag.items()):
+        unknown = []
+        for i in idxs:
+            c = cases[i]
+            o = impl[i].split('\t')[0]
+            out = bytes.fromhex(o).decode() if not o.startswith('X:') and o != '-' else None
+            if fn in 'IPT' and out is not None and ident_class_finding(tb, fn, c[1], c[3], out):
+                known_hits += 1
+                if KNOWN_IDENT in known_ids:
+                    continue
+            unknown.append(i)
+        if len(unknown) < len(idxs) and KNOWN_IDENT in known_ids:
+            j = min((i for i in idxs if i not in unknown), key=lambda i: len(cases[i][1]))
+            rep.known_finding(KNOWN_IDENT,
+                              f'{FN_NAMES[fn]}: a name left bare on the strength of Python \\w/\\d that the Rust '
+                              f'lexer does not read as one token, e.g. {ascii(cases[j][1])} -> '
+                              f'{ascii(bytes.fromhex(impl[j].split(chr(9))[0]).decode())} ({f})')
+        if not unknown:
+            continue
+        real_viol += 1
+        i0 = min(unknown, key=lambda i: (len(cases[i][1]), len(cases[i][2])))
+
+        def fails(cs, f=f):
+            return [f in r.split('\t')[2].split(',') for r in impl_of(cs)]
+        small = shrink(cases[i0], fails) if len(cases[i0][1]) > 1 else cases[i0]
+        r = impl_of([small])[0].split('\t')
+        rep.violation(f'{FN_NAMES[fn]}: monitor "{f}" failed on the real code '
+                      f'({len(unknown)} of {len([c for c in cases if c[0] == fn])} cases)',
+                      {**show(small), 'original_case': lines[i0],
+                       'real_output': (bytes.fromhex(r[0]).decode() if not r[0].startswith('X:') and r[0] != '-' else r[0]),
+                       'real_lexer_on_output_plus_k': r[1], 'monitor_flags': r[2],
+                       'required': 'one token of the expected kind whose value is the input, followed by exactly k',
+                       'model_result': (run_model(exe, tbl, [enc(small)])[0] if exe else None),
+                       'how': f'echo "<case>" | PYTHONPATH={lib.REPO}:harness /venv/bin/python harness/impl/c18_impl.py {lib.REPO}'})
+    for i in pg_fail[:2]:
+        real_viol += 1
+        c = cases[i]
+        rep.violation(f'{FN_NAMES[c[0]]}: the PostgreSQL lexical spec does not read the real output back as one '
+                      f'literal/identifier with the original value ({len(pg_fail)} cases)',
+                      {**show(c), 'real_output': bytes.fromhex(impl[i].split('\t')[0]).decode(),
+                       'pg_spec_result': model[i].split('\t')[2] if model else None,
+                       'expected_one_of': pg_expect(c, None)})
+    broken = []
+    if tr_err:
+        broken.append(('translator failed closed: ' + tr_err, {'broken': 'harness/translate/c18_quote.py', 'error': tr_err}))
+    if model is None:
+        broken.append(('model does not build: ' + blog[-1200:], {'broken': 'extraction of theories/C18/Model.v'}))
+    if out_mism:
+        i = min(out_mism, key=lambda i: len(cases[i][1]))
+        broken.append((f'correspondence broken: model and real {FN_NAMES[cases[i][0]]} produce different text '
+                       f'({len(out_mism)} cases)',
+                       {'broken': 'correspondence C18 Model vs ' + FN_NAMES[cases[i][0]], **show(cases[i]),
+                        'impl_output': impl[i].split('\t')[0], 'model_output': model[i].split('\t')[0],
+                        'disagreements': len(out_mism)}))
+    if lex_mism:
+        i = min(lex_mism, key=lambda i: len(cases[i][1]))
+        broken.append((f'correspondence broken: lexer model and the real Rust lexer disagree ({len(lex_mism)} cases)',
+                       {'broken': 'correspondence C18 Model.ql_lex1 vs tokenizer.rs', **show(cases[i]),
+                        'text': impl[i].split('\t')[0], 'real_lexer': impl[i].split('\t')[1],
+                        'model_lexer': model[i].split('\t')[1], 'disagreements': len(lex_mism)}))
+    if sw.get('n_problems'):
+        broken.append(('the code point sweep refutes a definition of the model: ' + '; '.join(sw['problems'][:5]),
+                       {'broken': 'Unicode class definitions (ASCII part / repr / check_prohibited)',
+                        'problems': sw['problems']}))
+    if coq_diff:
+        broken.append(('extracted model disagrees with vm_compute inside Coq',
+                       {'broken': 'extraction', 'case': lines[coq_diff[0][0]] if coq_diff[0][0] >= 0 else None,
+                        'coq': coq_diff[0][1]}))
+    if not pf['ok']:
+        broken.append(('proof obligations no longer check: ' + '; '.join(pf['broken'][:6]),
+                       {'broken': pf['broken'], 'log_tail': pf['log'][-3000:]}))
+    if not real_viol:
+        # a broken tie with no failing input found by the monitors over all cases
+        for what, payload in broken[:3]:
+            rep.violation(what, payload, False)
+    elif broken:
+        rep.notes.append('ties also broken: ' + ' | '.join(w for w, _ in broken)[:2000])
+
+    # ---- 7. evidence
+    distinct = {l for l, c in zip(lines, cases) if nontrivial(c)}
+    by_fn, forms, lexkinds, lens = {}, {}, {}, {}
+    for c, r in zip(cases, impl):
+        fn = c[0]
+        by_fn[fn] = by_fn.get(fn, 0) + 1
+        o, l, _ = r.split('\t')
+        f = form_of(fn, o)
+        if f != '-':
+            forms[f'{fn}:{f}'] = forms.get(f'{fn}:{f}', 0) + 1
+        lk = l.split(':')[0] + (':' + l.split(':')[1] if ':' in l else '')
+        lexkinds[f'{fn}:{lk}'] = lexkinds.get(f'{fn}:{lk}', 0) + 1
+        b = min(len(c[1]), 40) // 5 * 5
+        lens[b] = lens.get(b, 0) + 1
+    flagtab = {f'{fn}:{f}': len(v) for (fn, f), v in by_flag.items()}
+    samp = [show(cases[i]) | {'impl': impl[i]} for i in
+            sorted({ncorp, len(cases) // 5, len(cases) // 2, (4 * len(cases)) // 5, len(cases) - 1})]
+    rep.coverage.update({
+        'evaluations': len(cases),
+        'distinct_nontrivial': len(distinct),
+        'rule': 'per quoting function: every string of length <= %d over a 14-symbol adversarial alphabet of that '
+                'form (string / name / SQL name / bytes), every keyword of both languages in 5 spellings x flag '
+                'combinations, %s code point through the string and name forms, seeded random long strings by '
+                'Unicode category buckets, a token stream for the lexer model (well-formed tokens of every modelled '
+                'class + malformed variants); continuation k drawn from a per-form list; '
+                'non-trivial = contains a character of the adversarial class of the form under test (quotes, '
+                'backslash, $, controls, bidi for strings; a non-letter, a keyword or mixed case for names; '
+                'a byte the bytes form must escape); distinct = distinct encoded case (function, argument, k, flags)'
+                % (4 if thorough else 3, 'every' if thorough else 'every 37th'),
+        'exhaustive': False,
+        'exhaustive_subspaces': ['strings of length <= %d over the adversarial alphabets, per function' % (4 if thorough else 3),
+                                 'all 0x110000 code points: Unicode class tables / ASCII definitions / repr / '
+                                 'check_prohibited (sweep%s)' % (', from cache keyed by lexer binary + Python + Unicode version'
+                                                                 if sweep_cached else ', recomputed')],
+        'samples': samp,
+        'traces_validated_against_impl': (len(cases) - by_fn.get('T', 0) - by_fn.get('t', 0)) if model is not None else 0,
+        'model_vs_impl_output_disagreements': len(out_mism),
+        'lexer_model_vs_real_lexer_compared': n_lex_cmp,
+        'lexer_model_vs_real_lexer_disagreements': len(lex_mism),
+        'lexer_model_unmodelled_class': n_unm,
+        'model_out_of_fuel': n_none,
+        'pg_spec_monitor_failures': len(pg_fail),
+        'coq_vm_compute_cross_checked': n_coq,
+        'monitor_failures': flagtab,
+        'known_finding_hits': known_hits,
+        'cases_by_function': by_fn,
+        'chosen_form': dict(sorted(forms.items())),
+        'real_lexer_result_kinds': dict(sorted(lexkinds.items())),
+        'argument_lengths': {f'{k}-{k + 4}' if k < 40 else '40+': v for k, v in sorted(lens.items())},
+        'corpus_cases': ncorp,
+        'sweep': {k: sw[k] for k in ('unicode', 'python', 'code_points_swept', 'code_points_through_rust_lexer',
+                                     'counts', 'n_problems')} | {
+            'incompatible_code_points': {k: (v if not isinstance(v, dict) else {'n': v['n'], 'first_ranges': v.get('ranges', [])[:8]})
+                                         for k, v in sw['incompat'].items()}},
+        'translator_manifest': G.get('_manifest'),
+        'trusted_base': [
+            'Coq 8.16.1 kernel (coqc; coqchk in the thorough tier); vm_compute only in cases.v evaluation',
+            'extraction: ExtrOcamlBasic only, N/positive/nat kept inductive; OCaml 4.13.1; ocaml/conv.ml + c18_main.ml '
+            '(UTF-8 codec, table loader)',
+            'translator harness/translate/c18_quote.py (fail-closed: tables + SHA of each function shape)',
+            'correspondence harness harness/props/c18.py + harness/impl/c18_impl.py (generators, monitors, canonical forms)',
+            'rust/lexer harness crate (includes the unmodified tokenizer sources by #[path]; bigdecimal shim) and harness/rt/vrt stubs',
+            'hand-written PostgreSQL lexical specification Model.pg_lex1 / pg_bytea_in (PostgreSQL manual 4.1, 8.4): '
+            'standard_conforming_strings=on, UTF-8 server encoding, NAMEDATALEN=64; string-continuation across newlines, '
+            'E\'..\' / U&".." forms not modelled',
+            'modelled, not verified: Python str.replace / re character classes / repr() / str.lower as mirrored in Model.v; '
+            'the lexer model works on code points where the Rust code works on UTF-8 bytes (markers are ASCII)',
+            'checked hypothesis (not a proof): the Unicode class tables the model is run with, and the ASCII '
+            'definitions, equal the real re/str/repr and Rust lexer behaviour on all 0x110000 code points (sweep)',
+        ],
+    })
+    rep.assumptions = [
+        'theorems are conditional on ql_dollar_quote_literal returning Some (the fuel S(len s) of the tag search was '
+        'never exhausted in this run: model_out_of_fuel above); fuel sufficiency is not proved',
+        'ident_to_str, qname, quote_type, encode_value and the two code generators are covered by the monitors / '
+        'correspondence only (no theorem); quote_e_literal (unused in the tree) is not covered',
+        'the Validator\'s multi-word keyword merging (named only, set type, order by, ...) depends on the next token '
+        'and is outside the one-token lexer model',
+        'PostgreSQL side: the oracle is the modelled lexical spec only (no PostgreSQL in the sandbox)',
+    ]
+    return rep.finish()
+
+
+def replay(path):
+    d = json.load(open(path))
+    case = d['replay'].get('case') or d['replay'].get('original_case')
+    exe, _ = lib.build_model('c18', 'ExtractC18.v', 'c18_main.ml', 'C18_ext')
+    binary = lexer_binary()
+    tbl, sw, _ = sweep(binary)
+    print('case :', dec(case))
+    r = run_impl([case], binary)[0].split('\t')
+    print('impl : output', ascii(bytes.fromhex(r[0]).decode()) if r[0] not in ('-',) and not r[0].startswith('X:') else r[0],
+          '| real lexer:', r[1], '| monitors:', r[2])
+    if exe:
+        m = run_model(exe, tbl, [case])[0].split('\t')
+        print('model: output', ascii(bytes.fromhex(m[0]).decode()) if m[0] not in ('-', 'NONE') else m[0],
+              '| model lexer:', m[1], '| pg spec:', m[2])
+    else:
+        print('model does not build')
+    return 0
